@@ -295,6 +295,39 @@ def run(rep, tier):
     rep.check(ok, "R10.5", "merge-rule", "job_int.UpdateFrom(job_ext) iff ext has a host different from this one; size/id mismatch throws",
               "UPDATE_JOBS merges under %s (throws: %s); results of other processes would be lost or own results overwritten" % (got, [t[-60:] for t in thr]), uj.loc(), sample=True)
 
+    # UpdateFrom itself: "the file's copy wins" field by field - status unconditionally, host/time/output/error whenever the external copy
+    # carries them; nothing of this may depend on the state of the receiving copy (equal status does not mean equal host or result)
+    uf = F.one(X + "Job::UpdateFrom")
+    rep.analysed(uf)
+    fu = Fold(uf).run()
+    extn = uf.j["params"][0]["name"]
+    st_ = {}
+    for e_ in fu.events:
+        if e_["kind"] == "store":
+            st_.setdefault(e_["target"].replace("this->", ""), []).append(e_)
+    n_uf = 0
+    for tgt, getter, guard in (("status_", "getStatus", None), ("host_", "getHost", "hasHost"), ("time_", "getTime", "hasTime"),
+                               ("output_", "getOutput", "hasOutput"), ("error_", "getError", "hasError")):
+        es_ = st_.get(tgt, [])
+        ok_, why_ = len(es_) == 1, "%d assignments" % len(es_)
+        if ok_:
+            e_ = es_[0]
+            gl = sorted((str(c_).replace(" ", ""), pol_) for c_, pol_, _n in e_["guards"])
+            wantg = [("%s(%s)" % (guard, extn), True)] if guard else []
+            cut_ = [k_ for k_ in e_.get("left_kinds", []) if k_ in ("return", "throw")]
+            if str(e_["value"]).replace(" ", "") != "%s(%s)" % (getter, extn):
+                ok_, why_ = False, "it receives %s" % str(e_["value"])[:120]
+            elif gl != wantg:
+                ok_, why_ = False, "it is assigned under %s, required %s" % (gl or "no condition", wantg or "no condition")
+            elif cut_:
+                ok_, why_ = False, "an earlier %s can leave the function before the assignment (under %s)" % (
+                    cut_[0], [[str(c_) for c_, _p, _n in g_] for g_ in e_["not"]][:2])
+        n_uf += 1
+        rep.check(ok_, "R10.5", "update-from|" + tgt, "%s = %s(ext)%s, not depending on the receiving copy" % (tgt, getter, " when ext.%s()" % guard if guard else ""),
+                  "Job::UpdateFrom: %s: %s - the merge must take the file's copy field by field whatever the receiving copy holds; otherwise a job re-assigned by another process "
+                  "(same status, other host) is written back with stale data and that process's result is lost" % (tgt, why_), uf.loc(), sample=(tgt == "status_"))
+    rep.floor("R10.5", n_uf, 5, "fields carried by Job::UpdateFrom")
+
     # ---------------------------------------------------------------- R10.6 (assignment loop, decided on the folded loop body)
     from vsa.cases import executes as _exec, leaf_conditions
     import itertools as _it
